@@ -64,6 +64,27 @@ def mod_v(E, c):
         E.name(base64.b64decode(c['content'])), viol, heads, com, strs)
 
 
+RV = {'undef': 'RvUndef', 'v0': 'RvV0', 'v0v1': 'RvV0CompatV1', 'v1': 'RvV1'}
+
+
+def seq_v(E, c):
+    """one sequence of calls on one instance of the Fmt fix -> Check.C11Check.fmt_seq"""
+    steps = []
+    for st in c['steps']:
+        cand = '{| fc_name := %s; fc_contents := %s; fc_version := %s |}' % (
+            E.name(st['file'].encode()), E.name(base64.b64decode(st['content'])), RV[st['cfg']])
+        parsed = 'None' if st['parsed'] == 'err' else '(Some %s)' % RV[st['parsed']]
+        table = clist('(%s, %s)' % (RV[k], 'None' if v == '!' else '(Some %s)' % E.name(base64.b64decode(v)))
+                      for k, v in sorted(st['table'].items()))
+        out = {'none': 'FmtNone', 'error': 'FmtErr', 'panic': 'FmtErr'}.get(st['status'])
+        if st['status'] == 'changed':
+            out = '(FmtChanged %s)' % E.name(base64.b64decode(st['out']))
+        steps.append('{| fo_cand := %s; fo_parsed := %s; fo_table := %s; fo_out := %s; fo_state := %s |}' % (
+            cand, parsed, table, out, RV[st['state']]))
+    other = max([st.get('other', 0) for st in c['steps']] or [0])
+    return '{| fq_init := %s; fq_other := %d; fq_steps := %s |}' % (RV[c['init']], other, clist(steps))
+
+
 def dec(s):
     return base64.b64decode(s or '').decode('utf-8', 'backslashreplace')
 
@@ -177,12 +198,71 @@ def minimise(ctx, h, c, why):
     return best
 
 
+def multi_bad(c):
+    """why the implementation fails the property on this file set ('' = it does not)"""
+    if not c.get('parse_ok'):
+        return ''
+    if c.get('err'):
+        return 'fix-error:' + c['err']
+    if c.get('pred'):
+        return 'predicate:' + re.sub(r'\d+', 'N', c['pred'])
+    return ''
+
+
+def replay_one(ctx, h, case, tag):
+    rp = os.path.join(ctx.tmp, tag + '.json')
+    json.dump({'case': case}, open(rp, 'w'))
+    try:
+        res = run_harness(ctx, h, replay=rp, tag=tag)
+    except RuntimeError:
+        return None
+    return res[0] if res else None
+
+
+def minimise_multi(ctx, h, c, why):
+    """drop whole files while the same failure class persists (a failure that needs several files keeps them)"""
+    best = c
+    i = len(best['files']) - 1
+    budget = 6
+    while i >= 0 and budget > 0 and len(best['files']) > 1:
+        cc = dict(best)
+        cc['files'] = best['files'][:i] + best['files'][i + 1:]
+        budget -= 1
+        r = replay_one(ctx, h, cc, 'minm_%d' % budget)
+        if r is not None and multi_bad(r) == why:
+            best = r
+        i -= 1
+    return best
+
+
+def seq_bad(c):
+    return re.sub(r'\d+', 'N', c['pred']) if c.get('pred') else ''
+
+
+def minimise_seq(ctx, h, c, why):
+    """drop calls of the sequence while the same failure class persists"""
+    best = c
+    i = len(best['steps']) - 1
+    budget = 8
+    while i >= 0 and budget > 0 and len(best['steps']) > 1:
+        cc = dict(best)
+        cc['steps'] = best['steps'][:i] + best['steps'][i + 1:]
+        budget -= 1
+        r = replay_one(ctx, h, cc, 'mins_%d' % budget)
+        if r is not None and seq_bad(r) == why:
+            best = r
+        i -= 1
+    return best
+
+
 def run(ctx):
     h = vlib.build_harness(ctx, 'c11')
     cases = run_harness(ctx, h, replay=ctx.replay)
     units = [c for c in cases if c['kind'] == 'unit']
     e2e = [c for c in cases if c['kind'] == 'e2e']
     mods = [c for c in e2e if c.get('parse_ok')]
+    seqs = [c for c in cases if c['kind'] == 'seq']
+    multi = [c for c in cases if c['kind'] == 'multi']
 
     # the editor code-action path (internal/lsp fixEditParams) on the locations the linter reported
     lsp_cases = lsp_units(ctx, mods) if not ctx.replay else []
@@ -191,6 +271,14 @@ def run(ctx):
     E = Enc()
     uv = [unit_v(E, c) for c in units]
     mv = [mod_v(E, c) for c in mods]
+    qv = [seq_v(E, c) for c in seqs]
+    # self-test of the sequence comparison: another version left in the options must be flagged
+    pq = next((c for c in seqs if c['steps'] and c['steps'][-1]['state'] == 'v0v1'), None)
+    pq_v = None
+    if pq is not None:
+        pc = json.loads(json.dumps(pq))
+        pc['steps'][-1]['state'] = 'v1'
+        pq_v = seq_v(E, pc)
     pert = next((c for c in units if c['status'] == 'changed'), None)
     pert_v = None
     if pert is not None:
@@ -207,21 +295,27 @@ def run(ctx):
     v.append('Definition mods : list mod_case := %s.' % clist(mv))
     v.append('Definition R1 := Eval vm_compute in failing unit_agrees 0 units.')
     v.append('Definition R2 := Eval vm_compute in failing mod_ok 0 mods.')
+    v.append('Definition seqs : list fmt_seq := %s.' % clist(qv))
+    v.append('Definition R4 := Eval vm_compute in failing fmt_seq_agrees 0 seqs.')
+    v.append('Definition R5 := %s.' % ('Eval vm_compute in failing fmt_seq_agrees 0 [%s]' % pq_v if pq_v is not None else '[0]%nat'))
     # self-test of the comparison: a perturbed observation must be flagged
     if pert_v is not None:
         v.append('Definition R3 := Eval vm_compute in failing unit_agrees 0 [%s].' % pert_v)
     else:
         v.append('Definition R3 := [0]%nat.')
-    v.append('Print R1. Print R2. Print R3.')
+    v.append('Print R1. Print R2. Print R3. Print R4. Print R5.')
     rc, cout = vlib.coq_eval(ctx, 'Cases_C11', '\n'.join(v))
     if rc != 0:
         raise RuntimeError('case evaluation failed:\n' + cout[-3000:])
     r1 = vlib.parse_nat_list(cout, 'R1')
     r2 = vlib.parse_nat_list(cout, 'R2')
-    if r1 is None or r2 is None:
+    r4 = vlib.parse_nat_list(cout, 'R4')
+    if r1 is None or r2 is None or r4 is None:
         raise RuntimeError('could not read the results of the case evaluation:\n' + cout[-2000:])
     if vlib.parse_nat_list(cout, 'R3') != [0]:
         raise RuntimeError('self-test failed: a perturbed observation was not flagged by Check.C11Check.unit_agrees')
+    if vlib.parse_nat_list(cout, 'R5') != [0]:
+        raise RuntimeError('self-test failed: a perturbed option state was not flagged by Check.C11Check.fmt_seq_agrees')
 
     # ---- verdicts: the predicate on the implementation first (concrete failing inputs) ----------------
     classes = collections.Counter()
@@ -240,6 +334,42 @@ def run(ctx):
                              'rules': m['rules'], 'v0': m['v0'], 'errmsg': m.get('errmsg', ''),
                              'what': 'Fixer.Fix with rules %s on this module: %s' % (m['rules'], why)},
                        signature={'kind': why, 'key': json.dumps([m['rules'], m['v0'], dec(m['content'])], sort_keys=True)})
+
+    # several files in one run
+    for c in multi:
+        why = multi_bad(c)
+        if not why:
+            continue
+        classes['multi:' + why] += 1
+        key = ('multi', why, tuple(c['rules']))
+        if key in reported or len(reported) >= 5:
+            continue
+        reported.add(key)
+        m = minimise_multi(ctx, h, c, why) if not ctx.replay else c
+        fs = [{'path': f['path'], 'version': 'v0' if f['v0'] else 'v1', 'configured': f['cfg'], 'content': dec(f['content']),
+               'result': dec(f.get('final')), 'applied': f.get('applied'), 'verdict': f.get('pred') or f.get('fmt_eq')} for f in m['files']]
+        vlib.violation(ctx, {'kind': 'multi:' + why, 'case': m, 'files': fs, 'rules': m['rules'], 'versions': m['mode'],
+                             'bad_file': m.get('bad_file'), 'errmsg': m.get('errmsg', ''),
+                             'what': 'ONE Fixer.Fix run with rules %s over these files (versions: %s): %s' % (m['rules'], m['mode'], why)},
+                       signature={'kind': 'multi:' + why, 'key': json.dumps([m['rules'], m['mode'], [[f['path'], f['content']] for f in fs]], sort_keys=True)})
+    # one instance of the Fmt fix used for several files
+    for c in seqs:
+        why = seq_bad(c)
+        if not why:
+            continue
+        classes['seq:' + why] += 1
+        key = ('seq', why, c['inst'])
+        if key in reported or len(reported) >= 6:
+            continue
+        reported.add(key)
+        m = minimise_seq(ctx, h, c, why) if not ctx.replay else c
+        calls = [{'file': st['file'], 'configured': st['cfg'], 'module_version': st['parsed'], 'content': dec(st['content']),
+                  'status': st['status'], 'result': dec(st.get('out')), 'version_left_in_options': st['state'],
+                  'same_call_on_fresh_instance': st['fresh'], 'verdict': st['pred']} for st in m['steps']]
+        vlib.violation(ctx, {'kind': 'seq:' + why, 'case': m, 'instance': m['inst'], 'options_before': m['init'], 'calls': calls,
+                             'what': 'the %s fix instance of fixes.NewDefaultFixes() (or one built with these options) formatting '
+                                     'these files in this order: %s' % (m['inst'], m['pred'])},
+                       signature={'kind': 'seq:' + why, 'key': json.dumps([m['inst'], m['init'], [[x['file'], x['configured'], x['content']] for x in calls]], sort_keys=True)})
 
     for c in units:
         why = ''
@@ -280,6 +410,11 @@ def run(ctx):
         vlib.violation(ctx, {'kind': 'correspondence', 'relation': 'Check.C11Check.unit_agrees (Model/Fixes.v vs pkg/fixer/fixes)',
                              'case': c, 'content': dec(c['content']), 'observed_out': dec(c.get('out')), 'n_mismatches': len(r1)},
                        no_input=True)
+    if r4 and not ctx.violations:
+        c = seqs[r4[0]]
+        vlib.violation(ctx, {'kind': 'correspondence', 'relation': 'Check.C11Check.fmt_seq_agrees (Model/Fixes.v fmt_fix: result and '
+                             'RegoVersion left in the options of the Fmt fix, vs pkg/fixer/fixes/fmt.go)',
+                             'case': c, 'n_mismatches': len(r4)}, no_input=True)
     proof_gate(ctx)
 
     changed = [c for c in units if c['status'] == 'changed']
@@ -290,20 +425,35 @@ def run(ctx):
     for c in mods:
         hist['/'.join(c['rules']) + (' v0' if c['v0'] else '')] += 1
     cov = proof_coverage(ctx, {
-        'evaluations': len(units) + len(e2e),
+        'evaluations': len(units) + len(e2e) + len(multi) + sum(len(c['steps']) for c in seqs),
         'distinct_nontrivial': distinct,
         'rule': 'unit: every column (and start/end pair) around every line of a fixed pool of 43 lines with =, #, quotes, escapes, '
                 'multi-byte and invalid UTF-8 text, CR, for each of the 3 fixes (exhaustive), rows out of range, several locations, '
                 'plus random combinations; e2e: generated modules (rule heads with =/:=, args and keys with =,# and quotes inside strings, '
                 'else chains, multi-line heads, comments, regex calls with escapes/backticks/multi-byte patterns, CRLF, v0) x 12 subsets '
                 'of the fixable rules through Fixer.Fix. distinct = distinct unit calls that changed the content + distinct modules '
-                'that Fixer.Fix changed',
+                'that Fixer.Fix changed. astral: grid fix kind x k in 1..4 characters outside of the BMP (alone / with 2- and 3-byte '
+                'characters) x distance 1..6 of a decoy (=, #, ", :=) inside a string to the left of the fix column. multi: file sets '
+                'mixing v0 and v1 modules (versions by roots / detected / both) x 10 rule subsets in ONE Fixer.Fix run, per-file predicate. '
+                'seq: one Fmt fix instance over 2-5 candidates in every order, result and options state after every call vs model',
         'unit_cases': len(units), 'unit_cases_through_lsp_code_action': len(lsp_cases), 'unit_changed': len(changed), 'unit_status': dict(collections.Counter(c['fix'] + ':' + c['status'] for c in units)),
         'modules': len(e2e), 'modules_lintable': len(mods), 'modules_with_violations': len(withv), 'modules_changed': len(fixed),
         'violations_located': sum(len(c.get('viol') or []) for c in mods),
         'iterations_histogram': dict(collections.Counter(str(c.get('iters')) for c in mods)),
         'rule_subsets': dict(hist),
         'fmt_oracle': dict(collections.Counter(c.get('fmt_eq') or 'n/a' for c in mods)),
+        'astral_modules': dict(collections.Counter('/'.join(c['rules']) for c in mods if c.get('src', '').startswith('astral'))),
+        'astral_violations_located': sum(len(c.get('viol') or []) for c in mods if c.get('src', '').startswith('astral')),
+        'multi_file_runs': len(multi), 'multi_file_runs_lintable': len([c for c in multi if c.get('parse_ok')]),
+        'multi_versions_by': dict(collections.Counter(c['mode'] for c in multi)),
+        'multi_rule_subsets': dict(collections.Counter('/'.join(c['rules']) for c in multi)),
+        'multi_files': dict(collections.Counter(('v0' if f['v0'] else 'v1') + ' cfg=' + f['cfg'] + ' applied=' + ','.join(sorted(set(f.get('applied') or [])))
+                                                for c in multi for f in c['files'])),
+        'multi_fmt_oracle': dict(collections.Counter(f.get('fmt_eq') or 'n/a' for c in multi for f in c['files'])),
+        'fmt_instance_sequences': len(seqs), 'fmt_instance_calls': sum(len(c['steps']) for c in seqs),
+        'fmt_instance_calls_by': dict(collections.Counter('%s cfg=%s module=%s %s -> options %s' % (c['inst'], st['cfg'], st['parsed'], st['status'], st['state'])
+                                                          for c in seqs for st in c['steps'])),
+        'mismatch_model_fmt_sequences': len(r4),
         'mismatch_model_unit': len(r1), 'mismatch_model_rule_side': len(r2), 'predicate_failures': dict(classes),
         'samples': [
             {'fix': changed[0]['fix'], 'content': dec(changed[0]['content']), 'locs': changed[0]['locs'], 'out': dec(changed[0]['out'])} if changed else None,
